@@ -154,6 +154,8 @@ Vd(t, c) ==
                   ELSE Worse(Vd(Inner(rest), k), IF Lines(Inner(rest)) = <<>> THEN VAny("empty") ELSE VOK)
              ELSE LET v == IF Braced(rest) THEN NoNL(Inner(rest)) ELSE rest IN
                   IF HasBrace(v) THEN VAny("shape")
+                  \* braces around a boolean are not part of the documented syntax (the shorthand is the bare keyword)
+                  ELSE IF ty = "bool" /\ Braced(rest) THEN VAny("shape")
                   ELSE LET s == ValStatus(ty, v) IN
                        IF s = "OK" THEN VOK ELSE IF s \in {"novalue", "text"} THEN VR(s \o ":" \o c \o "." \o k) ELSE VAny("value")
       lv == [i \in 1..n |-> LineV(ls[i])]
